@@ -450,7 +450,7 @@ func restartFeature(ran *int) xmpp.StreamFeature {
 }
 
 func TestC12Restart(t *testing.T) {
-	ev.Check(t, 3000, 20000, func(rt *rapid.T) {
+	ev.Check(t, 8000, 40000, func(rt *rapid.T) {
 		recv := rapid.Bool().Draw(rt, "recv")
 		// (a receiving server-to-server session has no way of being told the
 		// addresses it expects, so any header naming an origin is refused; that
@@ -599,7 +599,7 @@ func TestC12Restart(t *testing.T) {
 // ---------------------------------------------------------------- (d) resource binding
 
 func TestC12BindInitiator(t *testing.T) {
-	ev.Check(t, 4000, 30000, func(rt *rapid.T) {
+	ev.Check(t, 10000, 50000, func(rt *rapid.T) {
 		wantRes := 1
 		if rapid.IntRange(0, 2).Draw(rt, "nores") == 0 {
 			wantRes = -1
@@ -710,7 +710,7 @@ func TestC12BindInitiator(t *testing.T) {
 }
 
 func TestC12BindReceiver(t *testing.T) {
-	ev.Check(t, 4000, 30000, func(rt *rapid.T) {
+	ev.Check(t, 10000, 50000, func(rt *rapid.T) {
 		client := genJID(rt, "client", -1)
 		if client.Localpart() == "" {
 			client = jid.MustParse("juliet@" + client.Domainpart())
